@@ -5,7 +5,7 @@ from rules import observers, stream
 from sa.deps import Facts, names_in, pseudo
 from sa.loader import AnalysisError, FuncInfo, own_nodes
 from sa.model import is_drain_call, norm_compare, row_loops, rowloop_signature, u, where
-from sa.paths import BREAK, FALL, RAISE, Enumerator, path_nodes
+from sa.paths import BREAK, FALL, RAISE, RETURN, Enumerator, path_nodes
 from sa.normalize import resolve_here
 from sa.pattern import find_expr, find_stmt, has_expr, has_stmt, match_expr, match_stmt
 
@@ -138,6 +138,25 @@ def wrappers(ctx, ld):
     run.floor('WRAP', n, 2, 'option valuations')
 
 
+def _nothing_after(stmt, fnode):
+    """no statement follows `stmt` on the way out of the function (so `return` inside it and `break` out of it end the same way)"""
+    cur = stmt
+    while cur is not fnode and getattr(cur, '_parent', None) is not None:
+        par = cur._parent
+        if isinstance(par, (ast.For, ast.While)) and cur is not stmt:
+            return False
+        for fld in ('body', 'orelse', 'finalbody', 'handlers'):
+            blk = getattr(par, fld, None)
+            if isinstance(blk, list) and any(cur is x for x in blk):
+                rest = blk[[i for i, x in enumerate(blk) if x is cur][0] + 1:]
+                if any(not (isinstance(r, ast.Return) and r.value is None) and not isinstance(r, ast.Pass) for r in rest):
+                    return False
+                if isinstance(par, ast.Try) and (par.finalbody and fld != 'finalbody'):
+                    return False
+        cur = par
+    return cur is fnode
+
+
 def row_wrappers(ctx, ld):
     run, repo = ctx.run, ctx.repo
     run.rule('R12', 'ROW-LOOP-SHAPE(load): limiter yields the incoming rows and stops after exactly limit_rows of them; stripper yields '
@@ -173,7 +192,9 @@ def row_wrappers(ctx, ld):
                     t, pol = g[0]
                     c = pseudo(t.left)
                     ok = ok and isinstance(t.ops[0], (ast.GtE, ast.Eq)) and pseudo(t.comparators[0]) == 'self.limit_rows'
-                    ok = ok and ((s_.term == BREAK) == pol)
+                    # (leaving the generator from the loop is the same stop when nothing follows the loop)
+                    stops = s_.term == BREAK or (s_.term == RETURN and _nothing_after(loop, lim.node))
+                    ok = ok and (stops == pol) and (stops or s_.term == FALL)
                     seq = []
                     for n in path_nodes(s_.path):
                         if isinstance(n, ast.Yield):
@@ -195,9 +216,27 @@ def row_wrappers(ctx, ld):
               'the limiter does not deliver exactly the first limit_rows rows', detail=how)
     # ... and none at all for a limit of 0: the yield-then-count loop delivers one row before it looks at the limit, so it needs a
     # guard in front (islice needs none)
-    zero = how == 'islice' or any(match_stmt(pt_, st_) is not None for st_ in lim.node.body for pt_ in (
-        'if self.limit_rows <= 0:\n    return', 'if self.limit_rows < 1:\n    return', 'if self.limit_rows == 0:\n    return',
-        'if not self.limit_rows:\n    return', 'if self.limit_rows > 0:\n    ...', 'if self.limit_rows >= 1:\n    ...'))
+    # decided by evaluating, for limit_rows = 0, the tests that stand before / around the loop
+    def _at_zero(t_):
+        if isinstance(t_, ast.UnaryOp) and isinstance(t_.op, ast.Not):
+            v_ = _at_zero(t_.operand)
+            return None if v_ is None else not v_
+        if pseudo(t_) == 'self.limit_rows':
+            return False
+        if isinstance(t_, ast.Compare) and len(t_.ops) == 1:
+            l_, r_ = t_.left, t_.comparators[0]
+            vals = [0 if pseudo(x_) == 'self.limit_rows' else (x_.value if isinstance(x_, ast.Constant) and isinstance(x_.value, (int, float))
+                                                               and not isinstance(x_.value, bool) else None) for x_ in (l_, r_)]
+            if None in vals or 'self.limit_rows' not in (pseudo(l_), pseudo(r_)):
+                return None
+            import operator as _op
+            f_ = {ast.Lt: _op.lt, ast.LtE: _op.le, ast.Gt: _op.gt, ast.GtE: _op.ge, ast.Eq: _op.eq, ast.NotEq: _op.ne}.get(type(t_.ops[0]))
+            return f_(*vals) if f_ else None
+        return None
+    from sa.model import dominating_atoms as _da
+    zero = how == 'islice'
+    if not zero and how:
+        zero = any(_at_zero(t_) is not None and _at_zero(t_) != pol_ for t_, pol_ in _da(loops[0], lim.node))
     run.check(zero, 'R12', lim.where, lim.qualname, 'no row for limit_rows == 0',
               'the limiter yields a row before it consults the limit: with limit_rows=0 one row is delivered instead of none')
     # the limiter is only installed for a truthy limit (limit 0/None = no limit), checked in WRAP
@@ -263,6 +302,8 @@ def headers_and_tables(ctx, ld):
                     'caster tables have exactly the three documented strategies; on_error reaches the schema caster')
     # (private methods / helpers the loading branches were moved into are part of it; local names for self.<attr> are resolved)
     sp = ctx.N(ld.methods['safe_process_datapackage'], keep=('rename_duplicate_headers', 'select_iterators'))
+    from sa.normalize import call_idioms as _ci13
+    sp = _ci13(ctx, sp)          # (keyword arguments collected in a dict and passed with **; a bound options.setdefault)
     renames = [c for c in ast.walk(sp.node) if isinstance(c, ast.Call) and isinstance(c.func, ast.Attribute)
                and c.func.attr == 'rename_duplicate_headers']
     if len(renames) != 1:
@@ -354,6 +395,21 @@ def headers_and_tables(ctx, ld):
                 dflt[c.args[0].value] = ast.literal_eval(c.args[1])
             except Exception:
                 dflt[c.args[0].value] = u(c.args[1])
+    # (options[K] = V under `K not in options` is the same default)
+    from sa.model import dominating_atoms as _da13
+    for a_ in ast.walk(sp.node):
+        if isinstance(a_, ast.Assign) and len(a_.targets) == 1 and isinstance(a_.targets[0], ast.Subscript) and \
+                u(a_.targets[0].value) == 'self.options' and isinstance(a_.targets[0].slice, ast.Constant):
+            k_ = a_.targets[0].slice.value
+            if any(pol_ is False and isinstance(t_, ast.Compare) and len(t_.ops) == 1 and isinstance(t_.ops[0], ast.In)
+                   and isinstance(t_.left, ast.Constant) and t_.left.value == k_ and u(t_.comparators[0]) == 'self.options'
+                   or (pol_ is True and isinstance(t_, ast.Compare) and len(t_.ops) == 1 and isinstance(t_.ops[0], ast.NotIn)
+                       and isinstance(t_.left, ast.Constant) and t_.left.value == k_ and u(t_.comparators[0]) == 'self.options')
+                   for t_, pol_ in _da13(a_, sp.node)) and k_ not in dflt:
+                try:
+                    dflt[k_] = ast.literal_eval(a_.value)
+                except Exception:
+                    dflt[k_] = u(a_.value)
     # the schema is inferred with confidence=1: a type is declared only if EVERY sampled cell casts to it (tableschema's default of 0.75
     # declares integer for a column in which a quarter of the cells are text - those rows then fail to cast or are dropped)
     infs = [c_ for c_ in ast.walk(sp.node) if isinstance(c_, ast.Call) and isinstance(c_.func, ast.Attribute) and c_.func.attr == 'infer'
@@ -516,19 +572,22 @@ def selection(ctx, ld):
         if len(tg) != 1:
             raise AnalysisError('load: iterator selector %s not resolved' % u(v.func))
         f = tg[0]
-        lp = [n for n in own_nodes(f.node) if isinstance(n, ast.For)]
+        from sa.model import is_drain_loop as _idl
+        lp = [n for n in own_nodes(f.node) if isinstance(n, ast.For) and not _idl(n)]
         sel_ok = len(lp) == 1 and isinstance(lp[0].iter, ast.Call) and u(lp[0].iter.func) == 'zip'
         if sel_ok:
             rv, dv = [t.id for t in lp[0].target.elts]
             ffacts = Facts(f, include_nested=False)
             for p in Enumerator(where=f.qualname).body_paths(lp[0]):
                 from sa.model import norm_compare as _nc
-                m = [pol for t, pol in [_nc(t_, pol_) for t_, pol_ in p.guards()] if '.match(' in u(t) and "%s['name']" % dv in u(t)]
+                from sa.pathvals import PathValues as _PVs
+                m = [pol for t, pol in [_nc(t_, pol_) for t_, pol_ in _PVs(p).guards] if '.match(' in u(t) and "%s['name']" % dv in u(t)]
                 if len(m) != 1:
                     sel_ok = False
                     continue
                 ys = [y for y in path_nodes(p) if isinstance(y, ast.Yield)]
-                dr = [c for c in path_nodes(p) if isinstance(c, ast.Call) and is_drain_call(res, c) and pseudo(c.args[0]) == rv]
+                dr = [c for c in path_nodes(p) if isinstance(c, ast.Call) and is_drain_call(res, c) and pseudo(c.args[0]) == rv] + \
+                    [it_.node for it_ in p.items if it_.kind == 'loop' and _idl(it_.node, rv)]
                 if m[0]:
                     sel_ok = sel_ok and len(ys) == 1 and pseudo(ys[0].value) == rv and not dr and p.term in (FALL, 'continue')
                 else:
